@@ -27,7 +27,7 @@ class C10(ChanSpec):
         # the streaming entry point (ReadFrom / reader-typed messages): message carriers through the real head handler on a
         # queued channel whose sender is stalled while the caller reuses its storage and another pool user scribbles
         rc, so, se = core.run([os.path.join(core.BIN, "nvh"), "-prop", "C14", "-seed", str(seed), "-count", str(300 if tier == "quick" else 8000)], timeout=1800)
-        lines += [l for l in so.split("\n") if l.startswith("C14 head") or l.startswith("#case")]
+        lines += [l for l in so.split("\n") if l.startswith("C14 head") or l.startswith("C14 contend") or l.startswith("#case")]
         if rc != 0:
             lines.append("C14 crash harness-exit-%d" % rc)
         # refused streamed writes (non-blocking channel, full queue): the pool must not end up holding a buffer twice
